@@ -1096,8 +1096,16 @@ func (b *ASTBuilder) buildSubscript(tsNode *sitter.Node) *Node {
 		node.Value = b.buildNode(value)
 	}
 
-	if subscript := b.getChildByFieldName(tsNode, "subscript"); subscript != nil {
-		node.AddChild(b.buildNode(subscript))
+	// `v[a, b]` has one "subscript" field per element: keep every one of them,
+	// not only the first (the others used to disappear from the AST).
+	childCount := int(tsNode.ChildCount())
+	for i := 0; i < childCount; i++ {
+		child := tsNode.Child(i)
+		if child != nil && tsNode.FieldNameForChild(i) == "subscript" {
+			if built := b.buildNode(child); built != nil {
+				node.AddChild(built)
+			}
+		}
 	}
 
 	return node
